@@ -39,7 +39,7 @@ struct act {
 	int s;
 	const char *text;
 };
-enum { K_OPEN, K_FIN, K_RESET, K_REQ, K_REPLY, K_CLOCK, K_GARBAGE, K_HTTP, K_HTTPFIN, K_OPENFAIL, K_BURST, K_REQNOID };
+enum { K_OPEN, K_FIN, K_RESET, K_REQ, K_REPLY, K_CLOCK, K_GARBAGE, K_HTTP, K_HTTPFIN, K_OPENFAIL, K_BURST, K_REQNOID, K_REQSYSFAIL, K_REFUSALS };
 
 static const struct act ACTS[] = {
     {"open(A)", K_OPEN, SA, NULL},
@@ -81,6 +81,11 @@ static const struct act ACTS[] = {
     {"B:fetch(rule)", K_REQ, SB, "\"method\":\"fetch\",\"params\":{\"id\":1,\"path\":{\"startsWith\":\"s\",\"caseInsensitive\":true}}"},
     {"B:set(sa) without id", K_REQNOID, SB, "\"method\":\"set\",\"params\":{\"path\":\"sa\",\"value\":7,\"timeout\":3}"},
     {"C:call(mb) without id", K_REQNOID, SC, "\"method\":\"call\",\"params\":{\"path\":\"mb\",\"args\":[2]}"},
+    /* a routed request whose timer cannot be created / armed (s = index of the failing call): refused, and nothing of it stays behind */
+    {"B:set(sa) while timerfd_create fails (EMFILE)", K_REQSYSFAIL, 0, "\"method\":\"set\",\"params\":{\"path\":\"sa\",\"value\":8}"},
+    {"B:set(sa) while timerfd_settime fails", K_REQSYSFAIL, 1, "\"method\":\"set\",\"params\":{\"path\":\"sa\",\"value\":9}"},
+    /* requests that are refused only after part of their work was done (matchers, group lists, routing records already built) */
+    {"A:volley of requests refused half-way", K_REFUSALS, SA, NULL},
     /* passwd is deliberately absent: it legitimately changes the size of the persistent credential database (judged by C20) */
 };
 #define NACTS ((int)(sizeof(ACTS) / sizeof(ACTS[0])))
@@ -98,6 +103,10 @@ static bool enabled(const struct act *a)
 	case K_REQNOID:
 	case K_GARBAGE:
 	case K_BURST:
+		return alive(a->s);
+	case K_REQSYSFAIL:
+		return alive(SB);
+	case K_REFUSALS:
 		return alive(a->s);
 	case K_REPLY:
 		if (!alive(a->s)) {
@@ -131,7 +140,7 @@ static void settle_point(void)
 
 static bool batchable(const struct act *a)
 {
-	return a->kind == K_FIN || a->kind == K_RESET || a->kind == K_REQ || a->kind == K_REQNOID || a->kind == K_REPLY || a->kind == K_CLOCK || a->kind == K_GARBAGE || a->kind == K_BURST || a->kind == K_HTTPFIN;
+	return a->kind == K_FIN || a->kind == K_RESET || a->kind == K_REQ || a->kind == K_REQNOID || a->kind == K_REPLY || a->kind == K_CLOCK || a->kind == K_GARBAGE || a->kind == K_BURST || a->kind == K_REFUSALS || a->kind == K_HTTPFIN;
 }
 
 static int reverse_hook(struct sim_ready *list, int n, int maxevents)
@@ -199,6 +208,43 @@ static void apply(const struct act *a)
 		jx_sendf(conn[a->s], "{%s}", a->text);
 		settle_point();
 		break;
+	case K_REFUSALS: {
+		static const char *const HALF[] = {
+		    "\"method\":\"fetch\",\"params\":{\"id\":\"h1\",\"path\":{\"containsAllOf\":[\"alpha\",\"beta\",7]}}",
+		    "\"method\":\"fetch\",\"params\":{\"id\":\"h2\",\"path\":{\"startsWith\":\"s\",\"endsWith\":5}}",
+		    "\"method\":\"fetch\",\"params\":{\"id\":\"h3\",\"path\":{\"equals\":\"sa\",\"containsAllOf\":[\"x\",null]}}",
+		    "\"method\":\"fetch\",\"params\":{\"id\":\"h4\",\"path\":{\"contains\":\"a\",\"nosuchmatcher\":\"b\"}}",
+		    "\"method\":\"get\",\"params\":{\"path\":{\"containsAllOf\":[\"alpha\",\"beta\",{}]}}",
+		    "\"method\":\"get\",\"params\":{\"path\":{\"startsWith\":\"s\",\"equalsNot\":[1]}}",
+		    "\"method\":\"add\",\"params\":{\"path\":\"half1\",\"value\":1,\"access\":{\"fetchGroups\":[\"g1\",5]}}",
+		    "\"method\":\"add\",\"params\":{\"path\":\"half2\",\"value\":1,\"access\":{\"fetchGroups\":[\"g1\"],\"setGroups\":\"g1\"}}",
+		    "\"method\":\"add\",\"params\":{\"path\":\"half3\",\"value\":1,\"timeout\":\"soon\"}",
+		    "\"method\":\"add\",\"params\":{\"path\":\"half4\",\"value\":1,\"fetchOnly\":\"yes\"}",
+		    "\"method\":\"set\",\"params\":{\"path\":\"sa\",\"value\":1,\"timeout\":\"soon\"}",
+		    "\"method\":\"set\",\"params\":{\"path\":\"sa\",\"value\":1,\"timeout\":0.0000001}",
+		    "\"method\":\"set\",\"params\":{\"path\":\"sa\"}",
+		    "\"method\":\"call\",\"params\":{\"path\":\"mb\",\"args\":[1],\"timeout\":-1}",
+		    "\"method\":\"change\",\"params\":{\"path\":\"sa\"}",
+		    "\"method\":\"authenticate\",\"params\":{\"user\":\"u1\"}",
+		    "\"method\":\"config\",\"params\":{\"name\":5}",
+		};
+		for (unsigned i = 0; i < sizeof(HALF) / sizeof(HALF[0]); i++) {
+			jx_sendf(conn[a->s], "{\"id\":%d,%s}", ++nreq, HALF[i]);
+			if ((i & 3) == 3) {
+				jx_settle();
+			}
+		}
+		settle_point();
+		break;
+	}
+	case K_REQSYSFAIL: {
+		const char *call = a->s == 0 ? "timerfd_create" : "timerfd_settime";
+		sim_fail_next(call, a->s == 0 ? EMFILE : EINVAL, -1);
+		jx_sendf(conn[SB], "{\"id\":%d,%s}", ++nreq, a->text);
+		jx_settle();
+		sim_fail_clear(call); /* the request was not routed (no such state): nothing failed */
+		break;
+	}
 	case K_BURST:
 		for (int i = 0; i < 3; i++) {
 			jx_sendf(conn[a->s], "{\"id\":%d,\"method\":\"set\",\"params\":{\"path\":\"sa\",\"value\":%d}}", ++nreq, i);
@@ -438,6 +484,6 @@ const struct driver drv_c07 = {
     .name = "c07",
     .property = "C07",
     .run = run,
-    .rule = "every sequence (every prefix too) of enabled actions up to the depth bound over {open/fin/reset of a raw-tcp, a websocket and a unix-socket peer; add, fetch, routed set/call with and without id, replies, virtual-clock expiry, authenticate right/again/wrong, passwd, config, unknown method, garbage; HTTP front-door probes that fail the handshake at different stages; accept-path failures of fcntl/setsockopt/getsockname; a burst overflowing the tiny routing table}, each ended by {close all -> idle baseline -> SIGTERM, SIGTERM at once}; start states: nothing connected / three peers with elements, a fetch and 1 or 3 routed requests in flight; deviation (budget 1): two consecutive actions become ready together and are harvested by one epoll_wait, in either dispatch order; oracle: peers, accounted heap, raw heap blocks, descriptors and timers at baseline, clean exit, no descriptor-hygiene event, accounted heap never above the cap; every execution is non-trivial; states = distinct action trails",
+    .rule = "every sequence (every prefix too) of enabled actions up to the depth bound over {open/fin/reset of a raw-tcp, a websocket and a unix-socket peer; add, fetch, routed set/call with and without id, routed set while timerfd_create / timerfd_settime fails, a volley of 17 requests that are refused half-way (bad later matcher, bad later group, bad timeout ...), replies, virtual-clock expiry, authenticate right/again/wrong, passwd, config, unknown method, garbage; HTTP front-door probes that fail the handshake at different stages; accept-path failures of fcntl/setsockopt/getsockname; a burst overflowing the tiny routing table}, each ended by {close all -> idle baseline -> SIGTERM, SIGTERM at once}; start states: nothing connected / three peers with elements, a fetch and 1 or 3 routed requests in flight; deviation (budget 1): two consecutive actions become ready together and are harvested by one epoll_wait, in either dispatch order; oracle: peers, accounted heap, raw heap blocks, descriptors and timers at baseline, clean exit, no descriptor-hygiene event, accounted heap never above the cap; every execution is non-trivial; states = distinct action trails",
     .assumptions = "descriptor numbers are never reused by the simulated kernel, so any use of a closed or never-issued number is observable|the raw-heap monitor counts malloc/calloc/realloc/free calls made by daemon objects (including the in-tree zlib and cJSON)",
 };
